@@ -2,6 +2,7 @@ package vm
 
 import (
 	"github.com/goghcrow/yae/val"
+	"github.com/goghcrow/yae/verifhook"
 )
 
 // https://www.zhihu.com/question/57754882/answer/154549716
@@ -26,6 +27,7 @@ func NewVM() *VM {
 
 // Interp 字节码解释器 switch threading
 func (v *VM) Interp(b *bytecode, env *val.Env) *val.Val {
+	verifhook.Touch(v, true, "vm.Interp")
 	v.stack = newStack()
 	v.bytecode = b
 	v.env = env
